@@ -386,7 +386,7 @@ class Gen(object):
                 out.insert(rng.randrange(len(out) + 1), copy.deepcopy(rng.choice(out)))
             if out and rng.random() < 0.3:       # near-duplicate: same clause but for one attribute (must survive de-duplication)
                 pos = [c for c in out if isinstance(c, (query.Sequence, query.Phrase, _cls("spans", "SpanQuery")))]
-                out.insert(rng.randrange(len(out) + 1), near_duplicate(rng, rng.choice(pos or out)))
+                out.insert(rng.randrange(len(out) + 1), near_duplicate(rng, rng.choice(pos or out), self.mode))
             if out and rng.random() < 0.15:      # same clause with another boost
                 c = rng.choice(out)
                 if not is_null(c):
@@ -396,7 +396,7 @@ class Gen(object):
         if self.spans and rng.random() < 0.07:
             # de-duplication probe: clauses that differ in one attribute only must both survive normalize()
             x = self.span_leafish() if rng.random() < 0.7 else query.Phrase("t", [rng.choice(["alfa", "bravo", "al"]) for _ in range(2)], slop=1)
-            ch = [x, near_duplicate(rng, x)] + ([sub()] if rng.random() < 0.3 else [])
+            ch = [x, near_duplicate(rng, x, self.mode)] + ([sub()] if rng.random() < 0.3 else [])
             rng.shuffle(ch)
             if self.mode == "A2" or rng.random() < 0.6:
                 return query.Or(ch)
@@ -452,9 +452,50 @@ class Gen(object):
         return q
 
 
-def near_duplicate(rng, q):
-    """A copy of q that differs in exactly one attribute that changes (or may change) what it matches."""
+def class_sibling(rng, q, mode="B"):
+    """A query of ANOTHER class carrying exactly q's attributes (same sub-queries / text / slop / boost): equality, hashing
+    and de-duplication must tell the two apart (Sequence vs Ordered, And vs Or, AndNot vs AndMaybe, Term vs Prefix...).
+    Returns None when q's class has no such sibling."""
     from whoosh import query
+    from whoosh.query import spans
+    c = copy.deepcopy(q)
+    t = type(c)
+    if t in (query.Sequence, query.Ordered):
+        other = query.Ordered if t is query.Sequence else query.Sequence
+        return other(list(c.subqueries), slop=c.slop, ordered=c.ordered, boost=c.boost)
+    if t in (query.And, query.Or, query.DisjunctionMax, spans.SpanOr):
+        opts = [k for k in (query.And, query.Or, query.DisjunctionMax) if k is not t and not (k is query.And and mode != "B")]
+        kids = list(getattr(c, "subqueries", None) or getattr(c, "subqs", None) or [])
+        if not kids:
+            return None
+        k = rng.choice(opts)
+        return k(kids, boost=getattr(c, "boost", 1.0))
+    if t in (query.AndNot, query.AndMaybe, query.Require, query.Otherwise):
+        k = rng.choice([k for k in (query.AndNot, query.AndMaybe, query.Require, query.Otherwise) if k is not t])
+        return k(c.a, c.b)
+    if t in (spans.SpanBefore, spans.SpanCondition, spans.SpanContains, spans.SpanNot):
+        k = rng.choice([k for k in (spans.SpanBefore, spans.SpanCondition, spans.SpanContains, spans.SpanNot) if k is not t])
+        return k(c.a, c.b)
+    if t in (query.Term, query.Prefix, query.Wildcard, query.Variations) and isinstance(c.text, str):
+        opts = [k for k in (query.Term, query.Prefix, query.Wildcard, query.Variations) if k is not t]
+        if c.text.isalnum():
+            opts.append(query.Regex)
+        k = rng.choice(opts)
+        out = k(c.fieldname, c.text)
+        if c.boost != 1.0:
+            out = out.with_boost(c.boost)
+        return out
+    return None
+
+
+def near_duplicate(rng, q, mode="B"):
+    """A copy of q that differs in exactly one attribute that changes (or may change) what it matches - or, one time in
+    three, a class sibling (see above)."""
+    from whoosh import query
+    if rng.random() < 0.34:
+        sib = class_sibling(rng, q, mode)
+        if sib is not None:
+            return sib
     c = copy.deepcopy(q)
     if isinstance(c, (query.Phrase, query.Sequence, query.SpanNear, query.SpanNear2)):
         if rng.random() < 0.6 or not hasattr(c, "ordered"):
@@ -655,6 +696,7 @@ def listed_and_variants(node):
                         while j < len(kids):
                             if type(kids[j]) is query.TermRange and kids[j].fieldname == kids[i].fieldname and _overlap(kids[i], kids[j]):
                                 kids[i] = _listed_merge(kids[i], kids.pop(j))
+                                j = i + 1      # as the library: the merged range is compared with the skipped ones again
                             else:
                                 j += 1
                     i += 1
